@@ -84,6 +84,17 @@ def replay(path):
         for b in bad:
             print("  %s (%s): %s" % (b["clause"], b["variant"], b["what"]))
         return 1 if bad else 0
+    if kind == "convexinit_state":
+        from . import c19
+        st = inst["state"]
+        _, finals, _ = c19.tlc_convexinit(os.path.join(wd, "ci"), st["n"], 4 * st["n"])
+        n, bad, notes = c19.replay_states(([st], finals, vlib.seed()))
+        print("state: %s" % json.dumps(st))
+        for b in bad:
+            print("  clause %s: %s" % (b["clause"], b["what"]))
+        for nt in notes:
+            print("  conformance note: %s" % nt["what"])
+        return 1 if bad else 0
     if kind == "dirgen_state":
         from . import c14
         n, bad = c14.replay_dirgen(([inst["state"]], vlib.seed()))
